@@ -134,12 +134,33 @@ func c19CheckProp(c C19Prop, o *vt.Obs) error {
 		}
 		forged := &c19Msg{kind: c19MsgPayload, from: m.from, to: m.to, raw: bw.Bytes(), desc: "FORGED(" + c.Corrupt + ") " + m.desc}
 		net.tolerateInvalidRequest = true
-		before := len(net.pending)
+		for i, pm := range net.pending { // the forged copy replaces the original one
+			if pm == m {
+				net.take(i)
+				break
+			}
+		}
 		if err := net.deliver(forged); err != nil {
 			return err
 		}
+		// Transactions the backup lacks are fetched from the other nodes (getdata from / tx to the backup only).
+		for round := 0; round < 200; round++ {
+			found := -1
+			for i, pm := range net.pending {
+				if (pm.kind == c19MsgGetData && pm.from == dst.idx) || (pm.kind == c19MsgTx && pm.to == dst.idx) {
+					found = i
+					break
+				}
+			}
+			if found < 0 {
+				break
+			}
+			if err := net.deliver(net.take(found)); err != nil {
+				return err
+			}
+		}
 		responded := false
-		for _, out := range net.pending[before:] {
+		for _, out := range net.pending {
 			if out.kind == c19MsgPayload && out.from == dst.idx {
 				if _, oi, err := net.decodeExt(out.raw); err == nil && (oi.typ == prepareResponseType || oi.typ == commitType) {
 					responded = true
